@@ -499,6 +499,14 @@ func VerifGetData() {
 			verifrt.Assert(err != nil, "C14-unknown-path-is-error")
 		}
 		verifrt.Assert(len(msgs) == 0 || err == nil, "C14-error-without-data")
+		// the SAME request once more on the same datastore (a client retrying): the answer of a
+		// request does not depend on what was asked before
+		msgs2, err2, panicked2 := v14Get(env, req)
+		verifrt.Reach("unknown-path-asked-again")
+		if !panicked2 {
+			verifrt.Assert(err2 != nil, "C14-unknown-path-is-error-when-asked-again")
+			verifrt.Assert(len(msgs2) == 0 || err2 == nil, "C14-error-without-data")
+		}
 		return
 	}
 	verifrt.Assert(err == nil, "C14-valid-request-accepted")
